@@ -791,6 +791,11 @@ func (x *Exec) jump(st *State, fr *Frame, b *ssa.BasicBlock) bool {
 	}
 	for phi, v := range phiVals {
 		fr.env[phi] = v
+		if fr.stamps == nil {
+			fr.stamps = map[ssa.Value]int{}
+		}
+		fr.nstamp++
+		fr.stamps[phi] = fr.nstamp
 	}
 	fr.prev = from
 	fr.block = b
